@@ -2,7 +2,10 @@
 //! re-executes one recorded case.
 
 pub mod inputs;
+#[cfg(feature = "likelysubtags")]
+pub mod likely;
 pub mod selftest;
+pub mod subtags;
 
 use crate::engine::*;
 
@@ -10,7 +13,14 @@ pub fn run(ctx: &Ctx) -> Option<Report> {
     Some(match ctx.prop.as_str() {
         "C02" => inputs::run_c02(ctx),
         "C03" => inputs::run_c03(ctx),
+        #[cfg(feature = "likelysubtags")]
+        "C06" => likely::run_c06(ctx),
+        #[cfg(feature = "likelysubtags")]
+        "C07" => likely::run_c07(ctx),
+        #[cfg(feature = "likelysubtags")]
+        "C08" => likely::run_c08(ctx),
         "C13" => inputs::run_c13(ctx),
+        "C15" => subtags::run_c15(ctx),
         _ => return None,
     })
 }
@@ -23,6 +33,11 @@ const SUBS: &[&str] = &[
     "c04.canon", "c04.wellformed", "c04.canonicalize", "c04.length", "c04.langid_wellformed", "c04.langid_canon",
     "c05.locale", "c05.extensions", "c05.idempotent", "c05.langid",
     "c13.superset", "c13.conv", "c13.prefix",
+    "c15.text", "c15.eq_str", "c15.accept", "c15.reject", "c15.panic", "c15.fromstr", "c15.tryfrom", "c15.und",
+    "c17.raw",
+    "c06.panic", "c06.maximize", "c06.entry", "c06.inplace",
+    "c07.panic", "c07.keeps", "c07.fills", "c07.changed", "c07.idempotent", "c07.bool", "c07.false_unchanged", "c07.variants", "c07.extensions", "c07.setup",
+    "c08.panic", "c08.meaning", "c08.subtags", "c08.longer", "c08.first", "c08.idempotent", "c08.min_max", "c08.reference", "c08.bool", "c08.false_unchanged", "c08.variants", "c08.extensions", "c08.setup",
 ];
 
 pub fn sub_name(s: &str) -> Option<&'static str> {
@@ -47,12 +62,16 @@ pub fn replay_case(_ctx: &Ctx, sub: &'static str, case: &Case) -> Vec<(String, S
                 "c04" => Some(&inputs::check_c04),
                 "c05" => Some(&inputs::check_c05),
                 "c13" => Some(&inputs::check_c13),
+                "c15" => Some(&subtags::check_c15),
+                "c17" => Some(&subtags::check_raw_roundtrip),
                 _ => None,
             };
             if let Some(f) = f {
                 f(b, &mut l, &coll);
             }
         }
+        #[cfg(feature = "likelysubtags")]
+        Case::Text(t) if t.starts_with("triple:") => likely::replay(_ctx, sub, t, &coll),
         _ => {}
     }
     coll.classes()
